@@ -64,6 +64,69 @@ pub enum ActorInputMessage {
     },
 }
 
+#[cfg(zinoma_verif)]
+impl ActorInputMessage {
+    pub fn verif_json(&self) -> String {
+        use crate::verif::js;
+        let actor = |id: &ActorId| match id {
+            ActorId::Root => js("ROOT"),
+            ActorId::Target(target_id) => js(&target_id.to_string()),
+        };
+        let kind = |kind: &ExecutionKind| match kind {
+            ExecutionKind::Build => js("build"),
+            ExecutionKind::Service => js("service"),
+        };
+        match self {
+            ActorInputMessage::Requested { kind: k, requester } => format!(
+                "{{\"type\":\"requested\",\"kind\":{},\"from\":{}}}",
+                kind(k),
+                actor(requester)
+            ),
+            ActorInputMessage::Unrequested { kind: k, requester } => format!(
+                "{{\"type\":\"unrequested\",\"kind\":{},\"from\":{}}}",
+                kind(k),
+                actor(requester)
+            ),
+            ActorInputMessage::Ok {
+                kind: k,
+                target_id,
+                actual,
+            } => format!(
+                "{{\"type\":\"ok\",\"kind\":{},\"from\":{},\"actual\":{}}}",
+                kind(k),
+                js(&target_id.to_string()),
+                actual
+            ),
+            ActorInputMessage::Invalidated { kind: k, target_id } => format!(
+                "{{\"type\":\"invalidated\",\"kind\":{},\"from\":{}}}",
+                kind(k),
+                js(&target_id.to_string())
+            ),
+        }
+    }
+}
+
+#[cfg(zinoma_verif)]
+impl TargetActorOutputMessage {
+    pub fn verif_json(&self) -> String {
+        use crate::verif::js;
+        match self {
+            TargetActorOutputMessage::TargetExecutionError(target_id, _) => format!(
+                "{{\"type\":\"error\",\"from\":{}}}",
+                js(&target_id.to_string())
+            ),
+            TargetActorOutputMessage::MessageActor { dest, msg } => format!(
+                "{{\"type\":\"msg\",\"dest\":{},\"msg\":{}}}",
+                match dest {
+                    ActorId::Root => js("ROOT"),
+                    ActorId::Target(target_id) => js(&target_id.to_string()),
+                },
+                msg.verif_json()
+            ),
+        }
+    }
+}
+
 #[derive(Debug)]
 pub enum TargetActorOutputMessage {
     TargetExecutionError(TargetId, Error),
@@ -89,7 +152,18 @@ pub fn launch_target_actor(
     let (target_actor_input_sender, target_actor_input_receiver) =
         channel::bounded(crate::DEFAULT_CHANNEL_CAP);
 
+    #[cfg(zinoma_verif)]
+    {
+        let sender = target_invalidated_sender.clone();
+        crate::verif::register_invalidator(
+            &target.id().to_string(),
+            Box::new(move || sender.try_send(TargetInvalidatedMessage).is_ok()),
+        );
+    }
+
     let watcher = match watch_option {
+        #[cfg(zinoma_verif)]
+        WatchOption::Enabled if !crate::verif::real_watchers() => None,
         WatchOption::Enabled => {
             TargetWatcher::new(target.id(), target.input(), &target_invalidated_sender)?
         }
